@@ -18,6 +18,6 @@ let () =
     let model = "check=" ^ cls in
     let spec = if last_part obs = "variants=same" then "ok" else "FAIL:" ^ last_part obs in
     (model, spec));
-  register "C06.repeat" (fun _inp obs ->
+  List.iter (fun op -> register op (fun _inp obs ->
     let spec = if last_part obs = "runs=same" then "ok" else "FAIL:" ^ last_part obs in
-    ("-", spec))
+    ("-", spec))) ["C06.repeat"; "C06.import"; "C06.cmd"]
